@@ -86,8 +86,7 @@ M("c07-cross-project-not-refused", ["C07"], ("project.py", "                exce
 M("c08-never-write-slnk2", ["C08"], ("project.py", "                    if any(s not in (-1, 0) for s in module.in_link_slots):", "                    if False:"))
 M("c08-slnk-compacts-holes", ["C08", "C01"], ("readers/module.py", "        links.extend(unpack(structure, data))\n", "        links.extend(x for x in unpack(structure, data) if x != -1)\n"))
 M("c08-writer-emits-out-slots", ["C08"], ("project.py", "                    link_slots = pack(structure, *link_slots)", "                    link_slots = pack(structure, *(module.out_link_slots + [0] * len(links))[: len(links)])"))
-M("c08-slnk2-elision-all-zero", ["C08"], ("project.py", "any(s not in (-1, 0) for s in module.in_link_slots)", "not all(s == 0 for s in module.in_link_slots)"))
-M("c08-reconstruction-plain-order", ["C08"], ("readers/sunvox.py", "        for mod in self.object.modules[1:] + self.object.modules[:1]:", "        for mod in reversed(self.object.modules):"))
+M("c08-slnk2-elision-too-eager", ["C08", "C01"], ("project.py", "any(s not in (-1, 0) for s in module.in_link_slots)", "any(s not in (-1, 0, 1) for s in module.in_link_slots)"))
 
 # ---------------------------------------------------------------- C09 / C10
 M("c09-validate-ge", ["C09"], ("controller.py", "        if value < self.min or value > self.max:", "        if value < self.min or value >= self.max:"))
